@@ -89,3 +89,13 @@ Theorem C07_str_fails_only_with_authority : forall (B : backend) (u : url) (e : 
   explicit_port u = Err e \/ host_subcomponent u = Err e \/ raw_user u = Err e \/ raw_password u = Err e.
 Proof. exact str_fails_only_with_authority. Qed.
 Print Assumptions C07_str_fails_only_with_authority.
+
+(** Tie to the source by translation: unsplit_result of yarl/_parse.py is re-emitted as
+    Gallina from the working tree on every run (harness/gen_model.py, Generated/ParseGen.v;
+    f-strings as concatenation, x[:k] == "lit" as a prefix test, `scheme in USES_AUTHORITY`
+    against the regenerated table) and equals the model the recomposition theorems use. *)
+From Yarl Require Import Model.Parse Generated.ParseGen Proofs.GenParseProofs.
+Theorem C07_source_unsplit_result : forall scheme netloc url query fragment : str,
+  gen_unsplit_result scheme netloc url query fragment = unsplit_result scheme netloc url query fragment.
+Proof. exact gen_unsplit_result_eq. Qed.
+Print Assumptions C07_source_unsplit_result.
